@@ -319,11 +319,11 @@ func (c *trCtx) stmt(s ast.Stmt, k trK) trLines {
 	case *ast.EmptyStmt:
 		return k()
 	case *ast.ReturnStmt:
-		if len(x.Results) == 0 && c.fn.obj.Type().(*types.Signature).Results().Len() > 0 {
+		if len(x.Results) == 0 && c.nresults > 0 {
 			trFail(x.Pos(), "return without values in a function with named results is outside the subset")
 		}
 		var vals []string
-		if len(x.Results) == 1 && c.fn.obj.Type().(*types.Signature).Results().Len() > 1 {
+		if len(x.Results) == 1 && c.nresults > 1 {
 			trFail(x.Pos(), "return of a multi-valued call is outside the subset")
 		}
 		for _, r := range x.Results {
